@@ -52,7 +52,9 @@ def make_case(rng, path, *, nmax=8, depth=3, mixed_tocks=True):
     ids.n = 200
     run_leaves = _running_leaves(prog)
     if path == "recur-raise":
-        case["fault"] = gen_sched.add_fault(rng, prog, kinds=("recur",))
+        # SystemExit: a doer calling sys.exit() - a BaseException that is not an Exception must unwind the same way
+        case["fault"] = gen_sched.add_fault(rng, prog, kinds=("recur",),
+                                            exc=rng.choice(["ValueError", "ValueError", "RuntimeError", "SystemExit"]))
     elif path == "enter-raise":
         case["fault"] = gen_sched.add_fault(rng, prog, kinds=("enter",))
     elif path == "kbint-in-doer":
